@@ -30,6 +30,45 @@ def cases(seed, tier):
     yield from generic.interruption_cases(
         ID, seed, tier, kinds=["pause", "pause", "pause", "dpause", "abort", "stop", "halt"], K=(12, 20)
     )
+    yield from raising_subscriber_cases(seed, tier)
+
+
+def raising_subscriber_cases(seed, tier):
+    """record_interruptions is on and a subscriber chokes on the record of the pause (its first 'event'): the
+    pause request itself fails in the requester's thread - the engine is then either paused or still running the
+    plan, never half-way (state 'pausing' until the plan ends)."""
+    import copy
+
+    from sim import gen
+    from sim.dsl import msg
+
+    rng = gen.rng_for(ID, seed, "raising-subscriber")
+    specs = gen.gen_world(rng, flyers=0, p_async=0.2)
+    pg = gen.PlanGen(rng, specs)
+    S = pg.S
+    head = [msg(S, "open_run"), msg(S, "checkpoint"), msg(S, "null"), msg(S, "sleep", None, 0.2), msg(S, "null")]
+    body = head + pg.point(devices=pg.dets[:1], checkpoint=1.0) + [msg(S, "close_run")]
+    base = {
+        "prop": ID,
+        "seed": seed,
+        "sim": {"handle_cost": 0.0},
+        "re": {"record_interruptions": True, "ignore_callback_exceptions": rng.random() < 0.3},
+        "devices": specs,
+        "suspenders": {},
+        "callbacks": {"cbK": {"raise_at": {"event": [0]}}},
+        "script": [
+            {"do": "subscribe", "cb": "cbK", "name": "all", "token": "k0"},
+            {"do": "call", "plan": body, "main": True},
+            {"do": "call", "plan": [msg(S, "null")], "tag": "followup-null"},
+        ],
+    }
+    for j in range(2 if tier == "quick" else 4):
+        c = copy.deepcopy(base)
+        c["variant"] = f"raising-subscriber-{j}"
+        c["script"][1]["inject"] = [{"id": "p0", "at": {"msg": rng.choice([2, 3, 4, 5]), "plus": rng.choice([0, 1, 2])}, "do": rng.choice(["pause", "pause", "dpause"])}]
+        c["script"][1]["decisions"] = [{"do": "resume"}, {"do": "resume"}]
+        c["script"][1]["settle"] = "idle"
+        yield c
 
 
 def _terminating_cause(call, msgs_before_resumable):
